@@ -200,6 +200,10 @@ def shard_programs(seed, examples):
         rng = random.Random(entropy)
         handler = (('subs0', 'subs2')[hsel & 1], ('subs4', 'subs0', 'subs2')[hsel % 3])
         case, n = build_case(rng, ('v6', 'v7', 'v7r')[ci], fc, mask, nzcv, kinds, te, handler)
+        if rng.random() < 0.2:
+            # the embedder installs a copy of the status register object (per-task CPSR objects, a checkpoint) or of the whole register file while slots
+            # of the block are still pending: the copy IS the status register from then on
+            case['inject'] = {str(rng.randrange(1, n + 2)): rng.choice(('swap_cpsr', 'swap_cpsr', 'swap_registers'))}
         used = kinds[:n]
         info = {'firstcond': fc, 'mask': mask, 'nzcv': nzcv, 'n': n, 'kinds': used, 'has_else': bin(mask).count('1') > 1 and n >= 2,
                 'flags_inside': any(k in ('cmp', 'cmp16', 'adds32', 'msr') for k in used), 'exception_inside': any(k in ('svc', 'udf', 'ldr_abort', 'udiv0', 'sdiv0') for k in used),
